@@ -71,7 +71,8 @@ pub fn dl(w: i128, with_units: bool) -> Vec<i128> {
 /// Integer-factor lattice `KL`.
 pub fn kl() -> Vec<i64> {
     let mut v: Vec<i128> = vec![];
-    for x in [0i128, 1, 2, 3, 7, 1000, 1_000_000_000, 1_000_000_007, 1 << 31, 1 << 53] {
+    // (every integer 1..=12: fast paths for small factors and divisors; powers of two up to 2^62)
+    for x in (0i128..=12).chain([16, 60, 64, 100, 1000, 1 << 20, 1_000_000_000, 1_000_000_007, 1 << 31, 1 << 40, 1 << 53, 1 << 58, 1 << 62]) {
         v.push(x);
         v.push(-x);
     }
@@ -199,6 +200,11 @@ pub fn el(ts: TimeScale, w: i128, leap_window: Option<(i64, i64)>) -> Vec<i128> 
     anchors.push(crate::oracle::civil::days1900(10_000, 1, 1) as i128 * scales::DAY);
     anchors.push(crate::oracle::civil::days1900(1970, 1, 1) as i128 * scales::DAY);
     anchors.push(crate::oracle::civil::days1900(1971, 12, 31) as i128 * scales::DAY);
+    // the mirror images of the scales' zero points about 1900-01-01 (an intermediate equal to MINUS a reference offset)
+    for s in [TimeScale::GPST, TimeScale::GST, TimeScale::BDT] {
+        anchors.push(-scales::zero_tai(s).unwrap());
+    }
+    anchors.push(-J2000_TAI);
     for a in anchors {
         for o in [0i128, 1, 2, NS, NS / 2, scales::DAY, 19 * NS, 33 * NS, 37 * NS] {
             v.push(a - sh + o);
